@@ -8,8 +8,16 @@ Import ListNotations.
 Record case := {
   topo : topology;            (* ids and per-disk-type counters of every node, as the code sees them *)
   opt : grow_option;
+  big : bool;                 (* some fan-out above 3: the oracle enumeration [admits] is skipped *)
   impl_servers : list server; (* returned servers as (dc, rack, node) ids, in the returned order *)
-  impl_err : bool             (* err <> nil *) }.
+  impl_err : bool;            (* err <> nil *)
+  grow_plan : option (list bool); (* Some fl: VolumeGrowth.grow follows a successful search, the
+                                     i-th AllocateVolume is refused iff fl[i] *)
+  impl_calls : list server;   (* AllocateVolume RPCs received by the volume servers, in order *)
+  impl_grow_err : bool;       (* grow's err <> nil *)
+  impl_holders : list server; (* data nodes whose volume map has the new id, in tree order *)
+  impl_layout : list server;  (* Topology.Lookup of the new id *)
+  topo_after : topology       (* counters of every level after the call(s) *) }.
 
 (* short constructors for the harness output (arguments get their scopes from the types) *)
 Definition U (k : string) (vol remote active ec max : Z) : string * counts :=
@@ -22,13 +30,53 @@ Definition Sv (a b c : string) : server := (a, b, c).
 Definition Op (disk dc rk n : string) (x y z : nat) : grow_option :=
   {| go_disk := disk; go_dc := dc; go_rack := rk; go_node := n; rp_dc := x; rp_rack := y; rp_same := z |}.
 
+Definition servers_eqb := list_eqb server_eqb.
+Definition mem_server (s : server) (l : list server) : bool := existsb (server_eqb s) l.
+Definition all_servers (t : topology) : list server :=
+  flat_map (fun dc => flat_map (fun rk => map (srv dc rk) (r_nodes rk)) (d_racks dc)) (t_dcs t).
+Definition same_set (a b : list server) : bool :=
+  forallb (fun s => mem_server s b) a && forallb (fun s => mem_server s a) b.
+
+(* independent statement of grow's effect on the counters: a data node's volume and active
+   counts rise by one iff it is in [ss], nothing else at node level moves *)
+Definition node_counts_spec (c : case) (ss : list server) : bool :=
+  forallb (fun s =>
+    match node_counts (topo c) (go_disk (opt c)) s, node_counts (topo_after c) (go_disk (opt c)) s with
+    | Some a, Some b => counts_eqb b (if mem_server s ss then add_one a else a)
+    | _, _ => false
+    end) (all_servers (topo c)).
+
+Definition grew (c : case) : bool :=
+  match grow_plan c with Some _ => negb (impl_err c) | None => false end.
+
 Definition check (c : case) : outcome :=
+  let fl := match grow_plan c with Some fl => fl | None => [] end in
+  let '(m_alloc, m_err) := grow fl (impl_servers c) in
   {| (* math/rand and map order cannot be replayed: the implementation's answer must be one
-        the model produces under SOME oracle (exhaustive enumeration, see [find_all]) *)
-     o_corr := wf_topology (topo c) && admits (topo c) (opt c) (impl_servers c, impl_err c);
-     (* property oracle: the placement rule evaluated on the returned servers *)
-     o_prop := if impl_err c then true else placement_ok (topo c) (opt c) (impl_servers c);
-     o_trig := None;
+        the model produces under SOME oracle (exhaustive enumeration, see [find_all]);
+        grow is replayed on the returned list with the case's fail plan *)
+     o_corr := wf_topology (topo c) &&
+               (* [if], not [||]: vm_compute evaluates both arguments of orb *)
+               (if big c then true else admits (topo c) (opt c) (impl_servers c, impl_err c)) &&
+               (if grew c then
+                  servers_eqb (grow_calls fl (impl_servers c)) (impl_calls c) &&
+                  Bool.eqb m_err (impl_grow_err c) &&
+                  servers_eqb m_alloc (impl_layout c) &&
+                  servers_eqb (filter (fun s => mem_server s m_alloc) (all_servers (topo c))) (impl_holders c) &&
+                  topo_eqb (fold_left (add_volume (go_disk (opt c))) m_alloc (topo c)) (topo_after c)
+                else (* the search reads only *) topo_eqb (topo c) (topo_after c));
+     (* property oracle on the implementation's observables: the placement rule on the returned
+        servers; success whenever the decidable success condition holds; after grow all of the
+        chosen servers hold the volume, or (on error) none *)
+     o_prop := (if impl_err c then negb (all_paths_ok (topo c) (opt c))
+                else placement_ok (topo c) (opt c) (impl_servers c)) &&
+               (if grew c then
+                  if impl_grow_err c
+                  then match impl_holders c, impl_layout c with [], [] => node_counts_spec c [] | _, _ => false end
+                  else same_set (impl_holders c) (impl_servers c) && same_set (impl_layout c) (impl_servers c) &&
+                       node_counts_spec c (impl_servers c)
+                else true);
+     o_trig := if grew c && trigger_partial_grow fl (opt c) then Some 0%N else None;
      o_nontrivial := negb (impl_err c) |}.
 
 Definition summarize_cases (l : list case) : summary := summarize check l.
